@@ -1157,7 +1157,8 @@ def p_qualifier(p):
             parser_token=p)
 
     flavors = _build_flavors(p, flavorlist, qualdecl, qualdecl.name)
-    if qval is None:
+    if len(p) in (2, 4):
+        # No qualifier parameter specified (as opposed to '(NULL)')
         if qualdecl.type == 'boolean':
             qval = True
         else:
